@@ -17,6 +17,9 @@ func driveExplore(seed int64, tier, out, replay string) {
 	json.Unmarshal(b, &ops)
 	for _, cfg := range []RigConfig{{HideNode: os.Getenv("EXPLORE_HIDE") != ""}} {
 		w := handWorld()
+		if os.Getenv("EXPLORE_PAYLOAD") != "" {
+			w = handWorldPayload()
+		}
 		if ws := os.Getenv("EXPLORE_WORLD"); ws != "" {
 			var seedv int64
 			fmt.Sscan(ws, &seedv)
